@@ -123,8 +123,8 @@ int main(int argc, char** argv) {
 			if ((int)(k % nsh) != shard) continue;
 			if ((k & 1023) == 0 && args.expired()) { R.incomplete = true; return R; }
 			vf::Json rp = vf::Json::obj().set("kind", "single").set("vm", vi).set("cfg", w.names[vi]).set("v2", v2).set("input", vf::hex(inputs[ii].data(), inputs[ii].size())).set("mxcsr", (int)states[si]).set("shard", shard).set("k", (unsigned long long)k);
-			vf::set_current(rp.dump());
-			std::string d = single(vi, v2, inputs[ii], states[si]); R.n["single_calls"]++;
+			vf::set_current(rp.dump()); vf::watchdog(300);
+			std::string d = single(vi, v2, inputs[ii], states[si]); R.n["single_calls"]++; alarm(0);
 			if (k % 50021 == 0) R.sample(rp, 2);
 			if (!d.empty() && R.viol.size() < 3) { vf::Violation v; v.key = "c13:single"; v.what = w.names[vi] + (v2 ? " v2: " : " v1: ") + d; v.replay = rp; R.viol.push_back(v); }
 		}
